@@ -200,7 +200,7 @@ def run_silent(case):
                 if closed is not None:
                     # with idle_timeout=None nothing may drop a silent session ... unless a data
                     # connection legitimately timed out (socket_timeout on a stalled upload)
-                    stalled_upload = sock is not None and any(not tr._lost_called or True for tr in peer.data_conns) and _upload_in_progress(so)
+                    stalled_upload = sock is not None and _upload_in_progress(so)
                     if not stalled_upload:
                         viol.append({"clause": "dropped-without-idle-timeout", "subject": subject, "detail": f"idle_timeout=None, socket_timeout={sock}: silent session dropped at +{closed - T_line:.6f}s after its last command"})
             else:
